@@ -1,13 +1,21 @@
 """C03 obligations: lexer reset frame lemma (CH-lex); statement splitting (CH-pre) added later."""
 from props._lexobs import FN
+from props._preobs import FN_PRE, PRE_ASSUME
 from vf.ch import Ob
 
 ASSUMPTIONS = ["the lexer is deterministic in (word, flags): equal flags after the reset give equal token streams for the whole next statement",
+               *PRE_ASSUME,
                "PLY creates fresh parser stacks per parse() call (read in ply.yacc.LRParser.parseopt_notrack)"]
 OUTSIDE = ["statements whose ';' is not at a line end", "scripts using \"input.regex\" (lexer.state is never reset)"]
 
 
 def obligations(tier):
     t = 240 if tier == "quick" else 900
-    return [Ob("C03.reset/all_flags", "lex", "c_reset", {"VF_CTX": 0}, t, FN,
+    obs = [Ob("C03.split/2lines", "pre", "c_split2", {}, t, FN_PRE,
+              "two complete one-line statements, each any of 22 catalogued lines (7 supported, 12 unsupported/skipped/blank, 3 SET) by symbolic index: result = concatenation of the results alone")]
+    firsts = [0, 2, 7, 13, 19] if tier == "quick" else list(range(22))
+    for k in firsts:
+        obs.append(Ob(f"C03.split/3lines/first={k}", "pre", "c_split3", {"VF_K1": k}, t, FN_PRE,
+                      f"three lines: first = catalogue line #{k}, second and third any of the 22 (symbolic)"))
+    return obs + [Ob("C03.reset/all_flags", "lex", "c_reset", {"VF_CTX": 0}, t, FN,
                "every lexer flag symbolic (7 bools, lp_open/lt_open 0..3, last_token any string <= 10 chars, last_par any string <= 2 chars) x all 117 vocabulary words")]
